@@ -76,6 +76,8 @@ def configs(tier):
         add(d=3, q=1, m=1, mode='dynamic', imputer='joint', storage='batch', names=nm)
     for mode in ('static', 'dynamic'):
         add(d=2, q=2, m=2, mode=mode, imputer='joint', storage='batch', labels=2)
+        add(d=2, q=2, m=2, mode=mode, imputer='joint', storage='batch', labels=4, _cost=300)
+        add(d=2, q=1, m=2, mode=mode, imputer='joint', storage='batch', labels=5, _cost=100)
         add(d=2, q=1, m=2, mode=mode, imputer='joint', storage='batch', bigger=True)
         for imp in ('joint', 'product'):
             add(d=2, q=1, m=2, mode=mode, imputer=imp, storage='batch', context_key=True)
